@@ -2,6 +2,7 @@ package simk
 
 import (
 	"fmt"
+	"runtime"
 	"runtime/debug"
 	"sort"
 	"strings"
@@ -28,6 +29,8 @@ type waiter struct {
 	ord  uint64 // arrival order, only used to break exact (site,key) ties
 	// frozen tasks belong to a crashed process incarnation: they are never scheduled again
 	frozen bool
+	kill   bool
+	gid    uint64 // goroutine id, only filled while a gate is installed
 }
 
 // Policy selects which enabled task runs next.
@@ -52,6 +55,7 @@ type Sim struct {
 	wakeCh   chan struct{}
 	finished atomic.Bool
 	closed   atomic.Bool
+	passAll  atomic.Bool
 	seq      atomic.Uint64
 
 	// configuration (set by the scenario before Run or at its very start)
@@ -63,6 +67,12 @@ type Sim struct {
 	FaultFn    func(site, arg string) error
 	FSFn       func(dir string) any
 	OnStep     func() // step invariant, evaluated by the scheduler while everything is parked
+	// Gate: tasks parked at a site with one of these prefixes only run while GateTokens > 0;
+	// every release of such a task consumes one token (lets a scenario advance a background
+	// goroutine by an exact number of scheduling steps). Negative = unlimited.
+	GatePrefixes []string
+	GateTokens   int
+	gatedG       map[uint64]bool
 
 	policy   Policy
 	stickyP  float64
@@ -100,6 +110,7 @@ func NewSim(c *Choices) *Sim {
 		Faults:     map[string]int{},
 		prio:       map[string]int{},
 		trace:      14695981039346656037,
+		GateTokens: -1,
 	}
 }
 
@@ -165,7 +176,7 @@ func (s *Sim) TraceHash() uint64 { return s.trace }
 func (s *Sim) Yield(site string, key uint64) { s.hookYield(site, key, nil) }
 
 func (s *Sim) hookYield(site string, key uint64, free func() bool) {
-	if s.closed.Load() {
+	if s.closed.Load() || s.passAll.Load() {
 		return
 	}
 	if s.Pass != nil && s.Pass(site) {
@@ -173,6 +184,22 @@ func (s *Sim) hookYield(site string, key uint64, free func() bool) {
 	}
 	w := &waiter{site: site, key: key, free: free, ch: make(chan struct{})}
 	s.mu.Lock()
+	if len(s.GatePrefixes) > 0 || len(s.gatedG) > 0 {
+		// the gate follows goroutines: a goroutine that once parked at a site with a gate prefix
+		// stays gated at every later scheduling point of the run
+		w.gid = curGID()
+		if !s.gatedG[w.gid] {
+			for _, p := range s.GatePrefixes {
+				if strings.HasPrefix(site, p) {
+					if s.gatedG == nil {
+						s.gatedG = map[uint64]bool{}
+					}
+					s.gatedG[w.gid] = true
+					break
+				}
+			}
+		}
+	}
 	s.arrivals++
 	w.ord = s.arrivals
 	s.parked = append(s.parked, w)
@@ -182,6 +209,30 @@ func (s *Sim) hookYield(site string, key uint64, free func() bool) {
 	default:
 	}
 	<-w.ch
+	if w.kill {
+		// the process incarnation this goroutine belongs to is being torn down at the end of the run:
+		// unwind (deferred functions run with every scheduling point switched off)
+		runtime.Goexit()
+	}
+}
+
+// KillFrozen ends the run for crashed incarnations: every frozen task unwinds via runtime.Goexit
+// with all scheduling points switched off, so that deferred clean-up (closing stores, stopping
+// tickers) can run and the bubble can end. Call it last, after every oracle was evaluated.
+func (s *Sim) KillFrozen() {
+	s.passAll.Store(true)
+	s.mu.Lock()
+	var keep []*waiter
+	for _, w := range s.parked {
+		if w.frozen {
+			w.kill = true
+			close(w.ch)
+		} else {
+			keep = append(keep, w)
+		}
+	}
+	s.parked = keep
+	s.mu.Unlock()
 }
 
 // FreezeParked marks every task that is parked right now, except those whose site has one of the
@@ -248,7 +299,7 @@ func (s *Sim) enabled() []*waiter {
 	s.mu.Lock()
 	ws := make([]*waiter, 0, len(s.parked))
 	for _, w := range s.parked {
-		if w.frozen {
+		if w.frozen || (s.GateTokens == 0 && s.gated(w)) {
 			continue
 		}
 		if w.free == nil || w.free() {
@@ -274,8 +325,76 @@ func (s *Sim) nParked() int {
 	return len(s.parked)
 }
 
+func (s *Sim) gated(w *waiter) bool { return w.gid != 0 && s.gatedG[w.gid] }
+
+// curGID parses the current goroutine's id out of its stack header.
+func curGID() uint64 {
+	var buf [64]byte
+	b := buf[:runtime.Stack(buf[:], false)]
+	b = b[len("goroutine "):]
+	var id uint64
+	for _, c := range b {
+		if c < '0' || c > '9' {
+			break
+		}
+		id = id*10 + uint64(c-'0')
+	}
+	return id
+}
+
+// WaitGate parks the caller until the gate tokens are used up or no gated task is waiting to run
+// (e.g. the background goroutine is blocked on an empty queue). While it waits only gated tasks
+// and other non-gated tasks run; the wait itself needs no fairness assumption.
+func (s *Sim) WaitGate() {
+	s.hookYield("gate.wait", 0, func() bool {
+		// evaluated by the scheduler with s.mu held and every goroutine quiescent
+		if s.GateTokens == 0 {
+			return true
+		}
+		for _, w := range s.parked {
+			if !w.frozen && s.gated(w) {
+				return false
+			}
+		}
+		return true
+	})
+}
+
+// GatedPos reports where the (first) gated task is parked right now; ok=false if none is parked.
+func (s *Sim) GatedPos() (site string, key uint64, ok bool) {
+	s.mu.Lock()
+	defer s.mu.Unlock()
+	for _, w := range s.parked {
+		if !w.frozen && s.gated(w) {
+			return w.site, w.key, true
+		}
+	}
+	return "", 0, false
+}
+
+// FreeRun executes f with every scheduling point switched off (code runs on the Go scheduler).
+// Used for teardown such as VM.Shutdown, which takes locks inside sync.Once bodies where a parked
+// task would make other goroutines block on the Once's internal mutex, invisible to synctest.
+// No task may be parked holding a lock that f needs.
+func (s *Sim) FreeRun(f func()) {
+	prev := s.passAll.Swap(true)
+	defer s.passAll.Store(prev)
+	f()
+}
+
+// SetGate installs (or clears) the gate. Safe to call from the scenario task.
+func (s *Sim) SetGate(tokens int, prefixes ...string) {
+	s.mu.Lock()
+	s.GatePrefixes = prefixes
+	s.GateTokens = tokens
+	s.mu.Unlock()
+}
+
 func (s *Sim) release(w *waiter) {
 	s.mu.Lock()
+	if s.GateTokens > 0 && s.gated(w) {
+		s.GateTokens--
+	}
 	for i, x := range s.parked {
 		if x == w {
 			s.parked = append(s.parked[:i], s.parked[i+1:]...)
